@@ -498,6 +498,118 @@ def enum_cases(tier):
                 yield {'F': F, 'T': {'name': name, 'B': c}}
 
 
+# ---------------------------------------------------------------------------
+# `-T xorcomp N [d]` / `-T majcomp N [d]`: the tool draws the mapping itself
+
+def run_shortform(case):
+    """each variable is replaced by the parity / majority of d of the N new variables: whatever sets the tool draws, the
+    result must be F composed with that function on SOME choice of d-subsets, one per variable"""
+    from vlib import cli, catalog
+    n, signs, name, N, d = case['n'], case['signs'], case['name'], case['N'], case['d']
+    with catalog.Ctx() as ctx:
+        path = ctx.path('cnf')
+        with open(path, 'w') as fh:
+            fh.write("p cnf {} {}\n".format(n, n))
+            for v in range(1, n + 1):
+                fh.write("{} 0\n".format(v if signs[v - 1] else -v))
+        toks = [name, str(N)] + ([str(d)] if d is not None else [])
+        G = cli.build('cnfgen', ['-q', '--seed', str(case['seed']), 'dimacs', path, '-T'] + toks)
+    deg = 3 if d is None else d
+    what = "cnfgen --seed {} dimacs <{} unit clauses with signs {}> -T {}".format(case['seed'], n, signs, ' '.join(toks))
+    if G.number_of_variables() != N:
+        raise Violation("{}: {} variables, {} announced".format(what, G.number_of_variables(), N))
+    got = tt.cnf_tt(N, [list(c) for c in G])
+    FULL = tt.full(N)
+    V = [None] + [tt.var_mask(N, i) for i in range(1, N + 1)]
+    subsets = list(itertools.combinations(range(1, N + 1), min(deg, N)))
+
+    def g(S, fn):
+        ms = [V[i] for i in S]
+        return tt.xor_all(N, ms) if fn == 'xor' else tt.at_least(N, ms, -(-len(ms) // 2))
+    fn = 'xor' if name == 'xorcomp' else 'maj'
+    ok = False
+    for choice in itertools.product(subsets, repeat=n):
+        want = FULL
+        for v, S in enumerate(choice, start=1):
+            a = g(S, fn)
+            want &= a if signs[v - 1] else FULL & ~a
+        if want == got:
+            ok = True
+            break
+    if not ok:
+        other = 'maj' if fn == 'xor' else 'xor'
+        hint = ''
+        for choice in itertools.product(subsets, repeat=n):
+            want = FULL
+            for v, S in enumerate(choice, start=1):
+                a = g(S, other)
+                want &= a if signs[v - 1] else FULL & ~a
+            if want == got:
+                hint = " (it is the composition with {} on the sets {})".format('parity' if other == 'xor' else 'majority', choice)
+                break
+        raise Violation("{}: the result is not the formula composed with the {} of {} of the {} new variables, for any choice of sets{}; clauses {}".format(
+            what, 'parity' if fn == 'xor' else 'majority', deg, N, hint, [list(c) for c in G][:8]))
+    labels = ['shortform', name, 'd-default' if d is None else 'd={}'.format(d)]
+    if deg >= 2:
+        labels.append('parity-and-majority-differ')
+    return Outcome(labels=labels, nontrivial=deg >= 2)
+
+
+def enum_shortform(tier):
+    i = 0
+    for name in ('xorcomp', 'majcomp'):
+        for n in (1, 2):
+            for N in range(1, 7):
+                for d in (None, 1, 2, 3, 4):
+                    deg = 3 if d is None else d
+                    if deg > N or len(list(itertools.combinations(range(N), deg))) ** n > 500:
+                        continue
+                    for signs in ([True] * n, [False] + [True] * (n - 1)):
+                        i += 1
+                        if tier == 'quick' and i % 2:
+                            continue
+                        yield {'n': n, 'signs': signs, 'name': name, 'N': N, 'd': d, 'seed': i}
+
+
+
+# ---------------------------------------------------------------------------
+# many compressions in one process, each with a graph object of its own that dies afterwards
+
+def run_many_graphs(case):
+    """the same formula compressed 40 times in a row with different mapping graphs that have the same numbers of vertices
+    and edges; every graph object is created for its call and unreachable afterwards, so a later object may live at the
+    address of an earlier one; each result is judged on its own by the oracle of 'compose'"""
+    import gc
+    import random as _r
+    R = _r.Random(case['rseed'])
+    F = case['F']
+    n, right, deg = F['n'], case['R'], case['deg']
+    labels = set()
+    nontrivial = False
+    for i in range(case['count']):
+        edges = sorted([u, w] for u in range(1, n + 1) for w in R.sample(range(1, right + 1), deg))
+        g = {'L': n, 'R': right, 'edges': edges, 'as': case['kinds'][i % len(case['kinds'])]}
+        out = run_case({'F': F, 'T': {'name': case['name'], 'B': g}})
+        labels.update(out.labels)
+        nontrivial = nontrivial or out.nontrivial
+        gc.collect()
+    labels.update(['many-graphs', 'many-graphs:' + case['name']])
+    return Outcome(labels=sorted(labels), nontrivial=nontrivial)
+
+
+def enum_many_graphs(tier):
+    i = 0
+    for name in ('xorcomp', 'majcomp'):
+        for kinds in (['networkx'], ['networkx', 'networkx-rl'], ['cnfgen', 'networkx'], ['networkx-shuffled']):
+            for F in ({'kind': 'hand', 'n': 2, 'clauses': [[1, -2], [2]]}, {'kind': 'hand', 'n': 3, 'clauses': [[1, 2, -3], [-1, 3], [-2]]}):
+                for right, deg in ((3, 2), (4, 2), (4, 3)):
+                    i += 1
+                    if tier == 'quick' and i % 3 != 1:
+                        continue
+                    yield {'F': F, 'name': name, 'R': right, 'deg': deg, 'kinds': kinds, 'count': 40 if tier == 'quick' else 120, 'rseed': i}
+
+
+
 SUBCHECKS = [
     SubCheck('compose', run_case, strategy=strat_case, enumerate_cases=enum_cases, quick=1200, thorough=60000,
              rule="CNFs with 1..4 variables (a quarter with caller-chosen labels that repeat or equal another variable's default name), 0..4 clauses of width 0..3 (0..6 for arity<=2) (empty clause, unused variables, repeated/opposite literals) and small php/op/Tseitin instances x every exported substitution (k in 1..4, thresholds 0..k+1; positional or with the documented parameter names as keywords; a third of the cases through `cnfgen dimacs <file> -T ...` on a harness-written file, formulas without clauses included), if-then-else, lifting k<=3, flip, xor/maj compression with arbitrary bipartite graphs; a third of the small cases and an enumerated grid (11 x 11 small transformations on four tiny formulas, library and `-T a -T b`) take as input the result of a first transformation - the same one applied twice included - so that the names met are the generated ones (caller-chosen labels also imitate them: X_{1}, Y_{1}, Z_{1}); complete slice: all formulas on <=2 variables with <=2 clauses x all transformations; oracle: tt(G) == F evaluated on the gadget-induced assignment for every assignment (lifting: and exactly one selector), variable count as documented; non-trivial: a non-empty clause and a non-constant gadget",
@@ -505,6 +617,12 @@ SUBCHECKS = [
                                               'unused-variable', 'opposite-literals', 'threshold-at-boundary',
                                               'variable-without-neighbours', 'php', 'op', 'through-cnfgen', 'through-cnfgen-no-clauses', 'keyword-call', 'repeated-variable-names',
                                               'input-is-a-transformed-formula', 'twice:lift', 'twice:xor', 'twice:flip', 'same-T-option-twice', 'names-like-generated-ones']),
+    SubCheck('many_graphs', run_many_graphs, enumerate_cases=enum_many_graphs,
+             rule="one small formula compressed 40 (thorough: 120) times in a row inside one case with xor / majority compression, every time with a fresh mapping graph object (networkx in three flavours, or cnfgen and networkx alternating) that has the same numbers of vertices and edges as the others but other edges, and that is unreachable after its call (gc.collect() in between); oracle: each result on its own, as in 'compose'",
+             required_labels=['many-graphs', 'many-graphs:xorcomp', 'many-graphs:majcomp']),
+    SubCheck('shortform', run_shortform, enumerate_cases=enum_shortform,
+             rule="`cnfgen dimacs <file> -T xorcomp|majcomp N [d]` (the tool draws the mapping itself; d defaults to 3) on formulas of 1..2 unit clauses of either sign, N in 1..6, d in {default, 1..4} with d <= N (quick: every second case); oracle: N variables, and the complete truth table equals the formula composed with the parity (xorcomp) / majority (majcomp) of d of the new variables for SOME choice of d-subsets, one per variable (all choices are tried); non-trivial: d >= 2, where parity and majority differ",
+             required_labels=['shortform', 'xorcomp', 'majcomp', 'd-default', 'd=2', 'parity-and-majority-differ']),
     SubCheck('wide', run_case, enumerate_cases=enum_wide,
              rule="gadgets of arity 9..14 (xor), 9..33 (or, all-equal, not-all-equal, exactly-one), 7..10 (majority), 9..16 (threshold substitutions, constants near both ends) and xor/maj compression with left degree 9..11, on formulas with 1..3 variables; oracle: as in 'compose', evaluated on 300 sampled assignments whose per-block counts sit around the gadget's switching points (bit-parallel on the sample); non-trivial: as in 'compose'",
              required_labels=['arity>=9', 'xor', 'xorcomp', 'maj']),
